@@ -94,9 +94,9 @@ type Record struct {
 	// not judged: for diagnosis and replay
 	where   string // function of go-pdf on top of a panic's stack
 	errText string // the error without the call
-	job   *Job
-	src   *Source
-	dst   []byte
+	job     *Job
+	src     *Source
+	dst     []byte
 }
 
 func pdfVersion(s string) pdf.Version {
